@@ -100,6 +100,8 @@ def independent_delta(a, seg, cs, H, ac):
             if isinstance(v, list) and v and isinstance(v[0], list):
                 xs, ys = [r[0] for r in v], [r[1] for r in v]
                 u = float(np.interp(s, xs, ys))
+            elif callable(v):
+                u = float(v(np.array([s]))[0])
             elif isinstance(v, list):
                 u = math.degrees(v[0]) if v[1] == "rad" else float(v[0])
             else:
@@ -133,6 +135,68 @@ def unit_control(chk, MX):
     bad = api.compare(dict(cd=ra, trim=ta, state=a._airplanes["a"].current_control_state), dict(cd=rb, trim=tb, state=b._airplanes["a"].current_control_state), rtol=2e-6, atol=1e-8)
     if bad:
         chk.violation("unit-control:differs", dict(kind="controls", setting={"elevator": [val, "rad"]}, differences=bad[:6]))
+
+
+def function_control(chk, MX, H):
+    """a control input given as a function of the span fraction (accepted like the functions of twist, sweep ...): the same mapping,
+    confined to the control surface; and the deflections listed in degrees are the ones listed in radians"""
+    rng = chk.rng
+    for k in range(chk.q(2, 10)):
+        ac = gen.simple_wing_aircraft(N=rng.randint(4, 8), reid=False)
+        ac["wings"]["main_wing"]["control_surface"].update(root_span=round(rng.uniform(0.2, 0.5), 2), tip_span=round(rng.uniform(0.7, 0.95), 2))
+        c0, c1 = round(rng.uniform(2, 6), 2), round(rng.uniform(-8, 8), 2)
+        cs = {"aileron": (lambda s_, c0=c0, c1=c1: c0 + c1 * s_), "elevator": round(rng.uniform(-5, 5), 2)}
+        rep = dict(kind="controls", aircraft=ac, setting={"aileron": "function of span: %r + %r*s [deg]" % (c0, c1), "elevator": cs["elevator"]})
+        chk.case(dict(kind="function-control", k=k), nontrivial=True)
+        chk.count("setting=function-of-span")
+        try:
+            sc = gen.build_scene(MX, {"scene": {"atmosphere": {"rho": 0.0023769}}}, [("a", ac, {"velocity": 80.0, "alpha": 2.0}, {})])
+            sc.set_aircraft_control_state(control_state=cs)
+            a = sc._airplanes["a"]
+            for seg in a.segments:
+                if seg._has_control_surface:
+                    exp = independent_delta(a, seg, cs, H, ac)
+                    if not np.allclose(seg._delta_flap, exp, rtol=1e-6, atol=1e-9):
+                        chk.violation("mapping-function:%s" % seg.side, dict(rep, segment=seg.name, got=np.array(seg._delta_flap).tolist(), expected=exp.tolist()))
+            dr, dd = sc.distributions(), sc.distributions(radians=False)
+            for seg in a.segments:
+                if not np.allclose(np.radians(dd["a"][seg.name]["delta_flap"]), dr["a"][seg.name]["delta_flap"], rtol=1e-9, atol=1e-12) or \
+                        not np.allclose(dr["a"][seg.name]["delta_flap"], seg._delta_flap, rtol=1e-12, atol=0.0):
+                    chk.violation("distributions-delta_flap-degrees", dict(rep, segment=seg.name, degrees=list(map(float, dd["a"][seg.name]["delta_flap"])),
+                                                                           radians=list(map(float, dr["a"][seg.name]["delta_flap"]))))
+        except Exception as e:
+            chk.violation("function-control-raises", dict(rep, error=repr(e)))
+
+
+def listed_aircraft(chk, MX, H):
+    """several aircraft listed in the scene input, some with a "control_state" and some without (documented: all deflections zero then): every
+    aircraft's sections carry the mapping of its own control inputs"""
+    rng = chk.rng
+    for k in range(chk.q(2, 8)):
+        acs, listed = {}, {}
+        for j, nm in enumerate(("lead", "second", "third")[:2 + k % 2]):
+            ac = gen.simple_wing_aircraft(N=3, reid=False, b=rng.choice([3.0, 4.0]))
+            cs = {"elevator": round(rng.uniform(-8, 8), 2), "aileron": round(rng.uniform(2, 8), 2)} if (j + k) % 2 == 0 else None
+            acs[nm] = (ac, cs)
+            listed[nm] = {"file": ac, "state": {"velocity": 80.0, "alpha": 2.0, "position": [0.0, 60.0 * j, 0.0]}}
+            if cs is not None:
+                listed[nm]["control_state"] = cs
+        sd = {"solver": {"type": "nonlinear"}, "scene": {"atmosphere": {"rho": 0.0023769}, "aircraft": listed}}
+        rep = dict(kind="controls", what="aircraft listed in the scene input", scene={"aircraft": {n_: {"control_state": v_[1]} for n_, v_ in acs.items()}})
+        chk.case(dict(kind="listed-aircraft", k=k, with_controls=[n_ for n_, v_ in acs.items() if v_[1] is not None]), nontrivial=True)
+        chk.count("setting=listed-in-scene-input")
+        try:
+            sc = MX.Scene(copy.deepcopy(sd))
+            for nm, (ac, cs) in acs.items():
+                a = sc._airplanes[nm]
+                for seg in a.segments:
+                    if seg._has_control_surface:
+                        exp = independent_delta(a, seg, cs or {}, H, ac)
+                        if not np.allclose(seg._delta_flap, exp, rtol=1e-6, atol=1e-9):
+                            chk.violation("mapping-listed:%s" % ("own-controls" if cs else "no-control_state"),
+                                          dict(rep, aircraft_name=nm, segment=seg.name, got=np.array(seg._delta_flap).tolist(), expected=exp.tolist()))
+        except Exception as e:
+            chk.violation("listed-aircraft-raises", dict(rep, error=repr(e)))
 
 
 def run(chk):
@@ -212,6 +276,8 @@ def run(chk):
         if not (idx and np.all(sign * dCL > 0)):
             chk.violation("sign-convention:%s:%s" % (ctrl, seg), dict(kind="controls", control=ctrl, segment=seg, dCL=dCL.tolist()))
     unit_control(chk, MX)
+    function_control(chk, MX, H)
+    listed_aircraft(chk, MX, H)
     failing, nfiles, errors = common.run_cases("C15", IMPORTS, [], cases)
     chk.cov["traces_validated_against_impl"] = len(cases)
     chk.cov["correspondence_cases"] = len(cases)
